@@ -444,7 +444,7 @@ class Runner:
                         except Exception as exc2:
                             pair_err = pair_err or type(exc2) is type(exc)
                 n_ = len(coll)
-                cnt = n_ * n_ - (n_ if s["kind"] == "corr" else 0)
+                cnt = n_ * n_
                 return {"t": "multi", "obs": [{"t": "skip"} if pair_err else err_obs(exc) for _ in range(cnt)]}
             m = df.values
             if not np.allclose(m, m.T, equal_nan=True):
@@ -453,8 +453,6 @@ class Runner:
             n = len(coll)
             for i in range(n):
                 for j in range(n):
-                    if s["kind"] == "corr" and i == j:
-                        continue
                     c = num(m[i, j])
                     if s["kind"] == "corr" and c is not None:
                         c = F(float(c) * abs(float(c)))
@@ -627,7 +625,7 @@ class Runner:
                 out.append(o)
             except Exception as exc:  # noqa
                 n = len(s["rs"]) if s["s"] == "arrbin" else (len(s["regs"]) if s["s"] == "arrtable" else
-                     (len(s["regs"]) ** 2 - (len(s["regs"]) if s.get("kind") == "corr" else 0) if s["s"] == "arrcov" else 1))
+                     (len(s["regs"]) ** 2 if s["s"] == "arrcov" else 1))
                 out.extend([err_obs(exc)] * n)
         return out
 
